@@ -2,7 +2,7 @@
 # seed_round.sh <prop> <suffix>: take the deliverables of the agent that worked in /tmp/mut2/<prop>, confirm them,
 # run the property's check against the change, remove the scratch worktree.  One at a time (it patches /repo).
 p=$1; sfx=${2:-b}
-wt=/tmp/mut2/$p
+wt=${MUTROOT:-/tmp/mut2}/$p
 [ -d $wt/seeded ] || { echo "no deliverables in $wt"; exit 2; }
 /verif/tools/seed_verify.sh $wt ${p}_$sfx 2>&1 | tail -3
 rm -f /verif/seeded/${p}_$sfx/*.o
